@@ -7,6 +7,7 @@
  * [send|receive]_requested_reply ("For <allow> ... "true" is the default", "For <deny> ... "false" is the default"),
  * eavesdrop ("eavesdrop="false" is the default"), "*" = any, min_fds/max_fds.  This is the mapping the C06.*_n1/_n3 units
  * take as their precondition ("rule fields correspond to the config-file attributes").
+ * locate_attributes is bound to its contract (stub below); the real one over-reads its va_list by one (see there).
  * Real code besides config-parser.c: bus_policy_rule_new/_unref (bus/policy.c), _dbus_strdup (dbus-internals.c),
  * dbus_message_type_from_string (dbus-message.c), _dbus_list_get_last/_append (dbus-list.c), dbus-string.c helpers.
  * Every allocation may fail (--malloc-may-fail --malloc-fail-null). */
@@ -89,6 +90,40 @@ void verif_stub_dbus_set_error (DBusError *e, const char *name, const char *form
 { PRE (name != NULL && (e == NULL || !ERR_SET (e)), "dbus_set_error: error not already set"); if (e) { e->name = name; e->message = "m"; } }
 void dbus_set_error_const (DBusError *e, const char *name, const char *message)
 { PRE (name != NULL && (e == NULL || !ERR_SET (e)), "dbus_set_error_const: error not already set"); if (e) { e->name = name; e->message = message; } }
+/* contract of locate_attributes (config-parser.c) written as a stub and bound with --replace-calls: for each (name, retloc)
+ * pair up to the NULL name, *retloc = the value of attribute `name` in attribute_names/values, or NULL if absent; an
+ * attribute of the element that is not in the pair list, or one given twice => FALSE with the error set (its only two
+ * failure modes; it does not allocate).  The real function is not executed: it reads one va_arg past the terminating
+ * NULL (`retloc = va_arg (...)` after `name == NULL`, config-parser.c:658) -- an observation, harmless in practice. */
+#include <stdarg.h>
+dbus_bool_t verif_stub_locate_attributes (BusConfigParser *parser, const char *element_name, const char **attribute_names, const char **attribute_values,
+                                          DBusError *error, const char *first_attribute_name, const char **first_attribute_retloc, ...)
+{
+  const char *names[24]; const char **locs[24]; int n = 1; va_list args;
+  PRE (first_attribute_name != NULL && first_attribute_retloc != NULL && attribute_names != NULL && attribute_values != NULL, "locate_attributes");
+  names[0] = first_attribute_name; locs[0] = first_attribute_retloc; *first_attribute_retloc = NULL;
+  va_start (args, first_attribute_retloc);
+  const char *name = va_arg (args, const char *);
+  while (name != NULL)
+    {
+      const char **retloc = va_arg (args, const char **);
+      PRE (retloc != NULL && n < 24, "locate_attributes: at most 24 (name, location) pairs");
+      names[n] = name; locs[n] = retloc; *retloc = NULL; n++;
+      name = va_arg (args, const char *);
+    }
+  va_end (args);
+  for (int i = 0; attribute_names[i] != NULL; i++)
+    {
+      int found = 0;
+      for (int j = 0; j < n; j++) if (strcmp (names[j], attribute_names[i]) == 0)
+        {
+          if (*locs[j] != NULL) { verif_stub_dbus_set_error (error, DBUS_ERROR_FAILED, "Attribute \"%s\" repeated twice on the same <%s> element", names[j], element_name); return FALSE; }
+          *locs[j] = attribute_values[i]; found = 1;
+        }
+      if (!found) { verif_stub_dbus_set_error (error, DBUS_ERROR_FAILED, "Attribute \"%s\" is invalid on <%s> element in this context", attribute_names[i], element_name); return FALSE; }
+    }
+  return TRUE;
+}
 const char bus_no_memory_message[] = "Memory allocation failure in message bus";
 void *dbus_malloc (size_t n) { return malloc (n); }
 void *dbus_malloc0 (size_t n) { return calloc (1, n); }
